@@ -353,7 +353,9 @@ impl Prop for C01 {
                 tags.push(format!("busy:{}", part.split(|c| c == '=' || c == '(').next().unwrap_or(part)));
             }
         }
-        if st.probes.max_queue >= 30 || st.probes.queue_full_on_event > 0 || o.counters.get("fault.burst_gt32_events_in_one_ms").copied().unwrap_or(0) > 0 {
+        // (hook H7 counts the overflows themselves; sampling the queue length between calls misses
+        // those that happen inside a multi-millisecond tick_ms, e.g. after a clock jump)
+        if st.queue_overflows() > 0 || st.probes.max_queue >= 30 || st.probes.queue_full_on_event > 0 || o.counters.get("fault.burst_gt32_events_in_one_ms").copied().unwrap_or(0) > 0 {
             tags.push("queue-overflow".into());
         }
         if st.probes.max_states >= 64 {
